@@ -10,7 +10,7 @@
    block may list the same transaction twice, and is then refused).  The chain-level statement assumes the ids of
    the active chain distinct (collision freeness, and BIP34 for coinbases). *)
 From BV Require Import lib.Ints lib.ChainParams gen.Params_gen model.Amount model.Ledger
-  proofs.LedgerMap proofs.LedgerConnect proofs.LedgerHistory proofs.LedgerSpend proofs.LedgerProps proofs.LedgerExample.
+  proofs.LedgerMap proofs.LedgerConnect proofs.LedgerHistory proofs.LedgerSpend proofs.LedgerChain proofs.LedgerProps proofs.LedgerExample.
 From BV Require model.TxCheck.
 Local Open Scope Z_scope.
 
@@ -95,6 +95,29 @@ Theorem C02_once_across_chain_for_every_history : forall cf ops,
   (forall k, lookup (cs_utxo s) k = if existsb (oeqb k) (hspends l) then None else lookup (hcreates l) k).
 Proof. exact once_across_history. Qed.
 Print Assumptions C02_once_across_chain_for_every_history.
+
+(* the same from collision freeness and BIP34 only: if the id determines the transaction among the transactions
+   of the active chain and its coinbases are pairwise different, the chain never contains a transaction twice
+   (the second copy's inputs are gone), hence the conclusion above. *)
+Theorem C02_accepted_chain_has_distinct_txids : forall cf bs s,
+  replay cf bs = Some s ->
+  (forall t t', In t (concat bs) -> In t' (concat bs) -> t_id t = t_id t' -> t = t') ->
+  NoDup (map t_id (filter is_cb (concat bs))) ->
+  NoDup (map t_id (concat bs)).
+Proof. exact accepted_chain_distinct_ids. Qed.
+Print Assumptions C02_accepted_chain_has_distinct_txids.
+
+Theorem C02_once_across_chain_from_collision_freeness : forall cf ops,
+  cf_bip30 cf = true ->
+  let s := run cf genesis_state ops in
+  (forall t t', In t (concat (chain_blocks s)) -> In t' (concat (chain_blocks s)) -> t_id t = t_id t' -> t = t') ->
+  NoDup (map t_id (filter is_cb (concat (chain_blocks s)))) ->
+  let l := chain_htxs (chain_blocks s) 1 in
+  NoDup (hspends l) /\
+  (forall k, In k (hspends l) -> lookup (hcreates l) k <> None) /\
+  (forall k, lookup (cs_utxo s) k = if existsb (oeqb k) (hspends l) then None else lookup (hcreates l) k).
+Proof. exact once_across_history_inj. Qed.
+Print Assumptions C02_once_across_chain_from_collision_freeness.
 
 (* the predicate evaluated on the implementation's dumps *)
 Theorem C02_holds_sound : forall interval chain reported,
